@@ -4,6 +4,7 @@ import json
 from vt import core
 from vt.main import decide
 from props import resolve_common as rc
+from translate import resolve_tr
 
 
 def enum_digraphs(n, r, limit):
@@ -39,7 +40,7 @@ def enum_digraphs(n, r, limit):
 
 
 def run(chk):
-    chk.prove([])
+    chk.prove([resolve_tr.translate])
     cases = []
     cases += enum_digraphs(2, chk.rng.split("e2"), 16)
     cases += enum_digraphs(3, chk.rng.split("e3"), 512 if chk.thorough else 150)
